@@ -214,6 +214,7 @@ func (ab *AccessBarrier) Release(bs *BarrierSession) {
 					// gap that has just been filled) by a goroutine that then lost
 					// the try-lock to us. Nobody else would destruct it until some
 					// later flush: re-check now that the try-lock is free.
+					verifYield(vpAbR6, unsafe.Pointer(ab), unsafe.Pointer(bs), 0)
 					if ab.hasDueSession(buf) {
 						goto retry
 					}
